@@ -29,6 +29,14 @@ UN = list(UNARY_MAPPING.items())
 COMMUTATIVE = {"+", "*", "and", "or", "xor", "=", "<>"}
 
 
+def pick(i, n):
+    """Concretise a symbolic index by explicit comparisons (one solver branch per value: exhaustive)."""
+    for k in range(n):
+        if i == k:
+            return k
+    raise IndexError(i)
+
+
 def _same(cls, base, names):
     return all(getattr(getattr(cls, m), "__func__", None) is getattr(getattr(base, m), "__func__", None) for m in names)
 
@@ -90,10 +98,47 @@ def _call(f, *a):
         return ("raw", type(e).__name__)
 
 
-def _ds(name, t):
-    return Dataset(name=name, components={
-        "Id_1": Component(name="Id_1", data_type=Integer, role=Role.IDENTIFIER, nullable=False),
-        "Me_1": Component(name="Me_1", data_type=t, role=Role.MEASURE, nullable=True)}, data=None)
+def _ds(name, t, two_ids=False, nm=1):
+    comps = {"Id_1": Component(name="Id_1", data_type=Integer, role=Role.IDENTIFIER, nullable=False)}
+    if two_ids:
+        comps["Id_2"] = Component(name="Id_2", data_type=String, role=Role.IDENTIFIER, nullable=False)
+    for k in range(nm):
+        comps["Me_%d" % (k + 1)] = Component(name="Me_%d" % (k + 1), data_type=t, role=Role.MEASURE, nullable=True)
+    return Dataset(name=name, components=comps, data=None)
+
+
+def _measure_types(ds):
+    return [m.data_type for m in ds.get_measures()]
+
+
+def binary_op_dataset(i, l, r, shape, nm):
+    """Dataset-level validation with identifier shapes (0 equal, 1 left subset, 2 right subset) and 1-2 measures."""
+    tok, cls = BIN[i]
+    if not is_generic_binary(cls):
+        return True
+    L, R = TYPES[pick(l, 9)], TYPES[pick(r, 9)]
+    shape, nm = pick(shape, 3), pick(nm, 3)
+    want = doc_binary(L, R, cls.type_to_check, cls.return_type)
+    d = _call(cls.dataset_validation, _ds("DS_1", L, shape == 2, nm), _ds("DS_2", R, shape == 1, nm))
+    if d[0] == "raw":
+        return False
+    if want is None:
+        return d[0] == "rej"
+    if nm == 1 and d[0] != "ok":
+        return False
+    if d[0] == "ok" and want != "ambiguous":
+        ts = _measure_types(d[1])
+        if len(ts) != nm or any(t is not want for t in ts):
+            return False
+    if tok in COMMUTATIVE:
+        # same operands in the other order: same verdict and same measure types
+        q = _call(cls.dataset_validation, _ds("DS_2", R, shape == 1, nm), _ds("DS_1", L, shape == 2, nm))
+        if q[0] == "raw" or (nm == 1 and q[0] != d[0]):
+            return False
+        # nm == 2: acceptance additionally depends on the engine's multi-measure rule 1-1-1-4 (outside the oracle)
+        if d[0] == "ok" and q[0] == "ok" and [t for t in _measure_types(q[1])] != [t for t in _measure_types(d[1])]:
+            return False
+    return True
 
 
 def _dc(name, t):
@@ -111,8 +156,10 @@ def _measure_type(ds):
 
 # ---- properties over the bare promotion functions --------------------------------------------
 def promo_check_agrees(l, r, t, rt):
-    L, R = TYPES[l], TYPES[r]
+    L, R = TYPES[pick(l, 9)], TYPES[pick(r, 9)]
+    t = pick(t, 10)
     T = None if t == 9 else TYPES[t]
+    rt = pick(rt, 10)
     RT = None if rt == 9 else TYPES[rt]
     ok = check_binary_implicit_promotion(L, R, T, RT)
     st, _ = _call(binary_implicit_promotion, L, R, T, RT)
@@ -120,8 +167,10 @@ def promo_check_agrees(l, r, t, rt):
 
 
 def promo_unary_check_agrees(x, t, rt):
-    X = TYPES[x]
+    X = TYPES[pick(x, 9)]
+    t = pick(t, 10)
     T = None if t == 9 else TYPES[t]
+    rt = pick(rt, 10)
     RT = None if rt == 9 else TYPES[rt]
     ok = check_unary_implicit_promotion(X, T, RT)
     st, _ = _call(unary_implicit_promotion, X, T, RT)
@@ -130,7 +179,8 @@ def promo_unary_check_agrees(x, t, rt):
 
 def promo_matches_doc(l, r, t, rt):
     """With a type_to_check (the way every generic operator calls it) accept/result follow the docs."""
-    L, R, T = TYPES[l], TYPES[r], TYPES[t]
+    L, R, T = TYPES[pick(l, 9)], TYPES[pick(r, 9)], TYPES[pick(t, 9)]
+    rt = pick(rt, 10)
     RT = None if rt == 9 else TYPES[rt]
     want = doc_binary(L, R, T, RT)
     st, got = _call(binary_implicit_promotion, L, R, T, RT)
@@ -142,8 +192,10 @@ def promo_matches_doc(l, r, t, rt):
 
 
 def promo_unary_matches_doc(x, t, rt):
-    X = TYPES[x]
+    X = TYPES[pick(x, 9)]
+    t = pick(t, 10)
     T = None if t == 9 else TYPES[t]
+    rt = pick(rt, 10)
     RT = None if rt == 9 else TYPES[rt]
     want = doc_unary(X, T, RT)
     st, got = _call(unary_implicit_promotion, X, T, RT)
@@ -157,7 +209,7 @@ def promo_unary_matches_doc(x, t, rt):
 # ---- properties over the operator registry -------------------------------------------------------
 def binary_op(i, l, r):
     tok, cls = BIN[i]
-    L, R = TYPES[l], TYPES[r]
+    L, R = TYPES[pick(l, 9)], TYPES[pick(r, 9)]
     T, RT = cls.type_to_check, cls.return_type
     if not is_generic_binary(cls):
         return True
@@ -203,7 +255,7 @@ def binary_commutes_bespoke(i, l, r):
     tok, cls = BIN[i]
     if tok not in COMMUTATIVE:
         return True
-    L, R = TYPES[l], TYPES[r]
+    L, R = TYPES[pick(l, 9)], TYPES[pick(r, 9)]
     a = _call(cls.validate, _sc("a", L), _sc("b", R))
     b = _call(cls.validate, _sc("a", R), _sc("b", L))
     if a[0] == "raw" or b[0] == "raw" or a[0] != b[0]:
@@ -222,7 +274,7 @@ def binary_commutes_bespoke(i, l, r):
 
 def unary_op(i, x):
     tok, cls = UN[i]
-    X = TYPES[x]
+    X = TYPES[pick(x, 9)]
     T, RT = cls.type_to_check, cls.return_type
     if not is_generic_unary(cls):
         return True
@@ -249,19 +301,24 @@ def unary_op(i, x):
     return True
 
 
-def warm():
+def warm(full=True):
     """Concrete warm-up of every code path (lazy imports etc.) before CrossHair traces."""
     bad = []
+    rng = range(9) if full else (1, 7)
     for i, (tok, cls) in enumerate(BIN):
-        for l in range(9):
-            for r in range(9):
+        for l in rng:
+            for r in rng:
                 try:
                     if not binary_op(i, l, r) or not binary_commutes_bespoke(i, l, r):
                         bad.append(("bin", tok, l, r))
+                    for sh in range(3):
+                        for nm in (1, 2):
+                            if not binary_op_dataset(i, l, r, sh, nm):
+                                bad.append(("bind", tok, l, r, sh, nm))
                 except Exception as e:
                     bad.append(("bin!", tok, l, r, type(e).__name__))
     for i, (tok, cls) in enumerate(UN):
-        for x in range(9):
+        for x in rng:
             try:
                 if not unary_op(i, x):
                     bad.append(("un", tok, x))
